@@ -200,6 +200,11 @@ func (x *Exec) modHeapNames(item string, callee *ssa.Function, c *ssa.CallCommon
 			env.vars[n] = Val{S: "0", T: pts[i]}
 		}
 	}
+	for _, fv := range o.FreeVars {
+		if pt, ok := types.Unalias(fv.Type()).Underlying().(*types.Pointer); ok {
+			env.vars[fv.Name()] = Val{S: "0", T: pt.Elem()}
+		}
+	}
 	var out []string
 	func() {
 		defer func() {
@@ -256,6 +261,15 @@ func (x *Exec) applyContract(st *State, fc *FuncContract, key string, callee *ss
 			}
 			env.vars[n] = a
 			env.vars[fmt.Sprintf("arg%d", i)] = a
+		}
+	}
+	// free variables of a closure under contract: the cells it captured
+	for k, fv := range o.FreeVars {
+		if k < len(x.pendingClo) {
+			v := x.pendingClo[k]
+			v.Loc = x.locOf(v)
+			v.Rng = &Val{S: "addr"}
+			env.vars[fv.Name()] = v
 		}
 	}
 	// preconditions
@@ -486,6 +500,15 @@ func (x *Exec) callCommon(st *State, c *ssa.CallCommon, i ssa.Value, pos token.P
 		callee, clo = fv.Fn, fv.Clo
 	}
 	if callee == nil {
+		// a closure called through the local variable it was assigned to (e.g. a recursive local function)
+		if rc := resolveCallee(c); rc != nil && rc.Parent() != nil {
+			if fcc, _ := x.contractOf(rc); fcc != nil && !fcc.Inline {
+				callee = rc
+				clo = x.closureBindings(st, rc)
+			}
+		}
+	}
+	if callee == nil {
 		// dynamic call
 		res := Val{}
 		if !x.dynPure() {
@@ -513,7 +536,9 @@ func (x *Exec) callCommon(st *State, c *ssa.CallCommon, i ssa.Value, pos token.P
 		}
 	}
 	if fc != nil && !fc.Inline {
+		x.pendingClo = clo
 		res := x.applyContract(st, fc, key, callee, sig, args, pos)
+		x.pendingClo = nil
 		if sig.Results().Len() > 0 {
 			setRes(fr, i, res)
 			st.callRes[key] = append(st.callRes[key], res)
@@ -904,4 +929,44 @@ func (x *Exec) containsFuncModel(st *State, s, f Val) (Val, bool) {
 	r := x.declare(st, "cf", "Bool")
 	x.assume(st, fmt.Sprintf("(= %s %s)", r, term))
 	return Val{S: r, T: types.Typ[types.Bool]}, true
+}
+
+
+// closureBindings finds the cells captured by closure fn as seen from the current frame: the frame's own free
+// variables when fn is the running closure (recursion), else the bindings of the MakeClosure in this function.
+func (x *Exec) closureBindings(st *State, fn *ssa.Function) []Val {
+	fr := st.top()
+	if fr.fn == fn {
+		var out []Val
+		for _, fv := range fn.FreeVars {
+			out = append(out, fr.vals[fv])
+		}
+		return out
+	}
+	for _, b := range fr.fn.Blocks {
+		for _, in := range b.Instrs {
+			if mc, ok := in.(*ssa.MakeClosure); ok && mc.Fn == ssa.Value(fn) {
+				var out []Val
+				for _, bnd := range mc.Bindings {
+					out = append(out, x.get(st, bnd))
+				}
+				return out
+			}
+		}
+	}
+	// a sibling closure capturing the same variables: match free variables by name
+	var out []Val
+	for _, fv := range fn.FreeVars {
+		found := false
+		for _, mine := range fr.fn.FreeVars {
+			if mine.Name() == fv.Name() {
+				out = append(out, fr.vals[mine])
+				found = true
+			}
+		}
+		if !found {
+			return nil
+		}
+	}
+	return out
 }
